@@ -287,6 +287,11 @@ CHECKS = {
     technique='runtime monitoring: reference model (Python) of ISO 8.10 over random ground fact tables whose clause order is known; all groups of bagof/setof are enumerated by backtracking',
     text='Random fact tables p/3 (0-10 ground rows incl. duplicates) are loaded and queried with generator goals with 0-2 given arguments; findall/3, findall/4 with a tail, templates with an extra unbound variable (fresh copies), bagof/3 and setof/3 with 0-2 free variables and ^ on any subset of them (all groups, in standard order of the witness), empty solution sets, forall/2 against its double negation, countall/2, call_nth/2 with the index unbound, given, 0 and out of range, findall nested in setof-driven enumeration, and an exception thrown by the n-th solution followed by an ordinary findall must all equal the model.',
     note='Facts are ground (non-ground witnesses and attributed variables in templates are not generated); bignum first arguments are left to C05/C06 (known finding K2).'),
+ 'C07': dict(
+    level='exploration',
+    technique='runtime monitoring: executable reference model (vt/miniprolog.py, an SLD interpreter with ISO cut, if-then-else, negation and disjunction semantics) compared with the compiled program on full answer sequences',
+    text="Random layered programs (ground fact tables, rules of 1-4 clauses whose bodies mix calls with variable/constant/structure arguments, ==, \\\\==, @<, @>=, =, disjunction, if-then-else, negation and cuts; heads with repeated variables, constants and structures) plus the recursive list predicates app/3, mem/2, len/2, rev/3 are consulted as static code; every predicate is queried with all arguments free and with each argument given, and 10 list-library queries (incl. conjunctions with negation and arithmetic comparison) are run; the full answer sequence (order, multiplicity, bindings up to renaming, fresh variables per answer) must equal the reference interpreter's.",
+    note='Cases the model cannot decide are dropped, never judged: comparison of distinct unbound variables with @</@>=, more than 300 answers, more than 200000 interpreter steps. Two clause shapes that hit compiler defects (known findings K41, K42) are not generated at random and are probed by one fixed clause each.'),
 }
 
 NOT_APPLICABLE_REASON_UNBUILT = ('check designed in DESIGN.md but not built/validated yet in this session; '
